@@ -3,10 +3,11 @@ import itertools
 
 PROP = "C14"
 GEN = ["Murmur3"]
-VO = ["Properties/C14.vo", "Extract/D_C14.vo"]
+VO = ["Properties/C14.vo", "Extract/D_C14.vo", "Extract/O_C14.vo"]
 MODULE = "Properties.C14"
 THEOREMS = ["c14_reference", "c14_range"]
-DRIVER = "C14"
+DRIVER = "D_C14"
+ORACLE = "O_C14"
 TRUSTED = [
     "Coq 8.16.1 kernel (coqc, vm_compute for Examples; no native_compute); thorough tier: coqchk",
     "axioms: none (Print Assumptions: Closed under the global context for c14_reference, c14_range)",
@@ -85,7 +86,7 @@ def search(ctx):
     cs = cases(ctx)
     found = []
     latin = [(s, seed) for s, seed in cs if all(ord(c) < 256 for c in s) and 0 <= seed < 2 ** 32]
-    ref = ctx.driver.call_many([(2, (s, seed)) for s, seed in latin]) if ctx.driver else []
+    ref = ctx.oracle.call_many([(2, (s, seed)) for s, seed in latin])
     bad = []
     for (s, seed), r in zip(latin, ref):
         got = call_impl(f, s, seed)
